@@ -231,4 +231,144 @@ theorem mgRun_fixed (r : Run) (l0 : Lvl K) (hS : Solved l0)
   let ⟨zs, h1, h2⟩ := runTrace_fixed l0 hS hInj (mgTrace r) ([l0], true) ⟨[], rfl, fun _ h => by cases h⟩
   ⟨zs, h1, fun z hz => (h2 z hz).2.1⟩
 
+/-! ## the trace of a `multigrid` call is balanced: the stack returns to the fine level -/
+
+theorem runTrace_append (st : List (Lvl K) × Bool) (a b : List Ev) :
+    runTrace st (a ++ b) = runTrace (runTrace st a) b := by
+  simp only [runTrace, List.foldl_append]
+
+/-- an event list that leaves the depth of every non-empty stack unchanged -/
+def LenPres (K : Type) [Field K] [DecidableEq K] (evs : List Ev) : Prop :=
+  ∀ st : List (Lvl K) × Bool, 1 ≤ st.1.length → (runTrace st evs).1.length = st.1.length
+
+theorem lenPres_nil : LenPres K [] := fun _ _ => rfl
+
+theorem lenPres_append {a b : List Ev} (ha : LenPres K a) (hb : LenPres K b) :
+    LenPres K (a ++ b) := by
+  intro st h
+  rw [runTrace_append, hb _ (by rw [ha st h]; exact h), ha st h]
+
+theorem lenPres_single_flat (ev : Ev) (hev : (∀ l s c cs, ev ≠ .restrict l s c cs) ∧
+    (∀ l s c, ev ≠ .prolong l s c)) : LenPres K [ev] := by
+  intro st _
+  obtain ⟨stack, ok⟩ := st
+  cases ev with
+  | enter a b c => cases stack <;> rfl
+  | cycleEnd a b c => cases stack <;> rfl
+  | smooth lev sh nu clr => cases stack <;> rfl
+  | restrict l s c cs => exact absurd rfl (hev.1 l s c cs)
+  | prolong l s c => exact absurd rfl (hev.2 l s c)
+
+theorem lenPres_smooth (l : ℕ) (s : Shape) (nu clr : ℕ) : LenPres K [Ev.smooth l s nu clr] :=
+  lenPres_single_flat _ ⟨fun _ _ _ _ h => (by cases h), fun _ _ _ h => (by cases h)⟩
+
+theorem lenPres_enter (l n : ℕ) (s : Shape) : LenPres K [Ev.enter l n s] :=
+  lenPres_single_flat _ ⟨fun _ _ _ _ h => (by cases h), fun _ _ _ h => (by cases h)⟩
+
+theorem lenPres_cycleEnd (a b c : ℕ) : LenPres K [Ev.cycleEnd a b c] :=
+  lenPres_single_flat _ ⟨fun _ _ _ _ h => (by cases h), fun _ _ _ h => (by cases h)⟩
+
+/-- restriction, a balanced list, prolongation: balanced -/
+theorem lenPres_bracket {B : List Ev} (hB : LenPres K B) (l1 : ℕ) (s1 : Shape) (c1 : ℕ)
+    (cs : Shape) (l2 : ℕ) (s2 : Shape) (c2 : ℕ) :
+    LenPres K ([Ev.restrict l1 s1 c1 cs] ++ B ++ [Ev.prolong l2 s2 c2]) := by
+  intro st h
+  obtain ⟨stack, ok⟩ := st
+  cases stack with
+  | nil => simp at h
+  | cons l ls =>
+    rw [runTrace_append, runTrace_append]
+    have h1 : runTrace (l :: ls, ok) [Ev.restrict l1 s1 c1 cs] = (coarseLvl c1 l :: l :: ls, ok) := rfl
+    rw [h1]
+    have h2 := hB (coarseLvl c1 l :: l :: ls, ok) (by simp)
+    generalize runTrace (coarseLvl c1 l :: l :: ls, ok) B = st2 at h2
+    obtain ⟨stack2, ok2⟩ := st2
+    simp only [List.length_cons] at h2
+    cases stack2 with
+    | nil => simp at h2
+    | cons c rest =>
+      cases rest with
+      | nil => simp at h2
+      | cons a rest' =>
+        simp only [runTrace, List.foldl_cons, List.foldl_nil, step, List.length_cons] at h2 ⊢
+        omega
+
+theorem lenPres_flatMap {α : Type} (xs : List α) (f : α → List Ev) (h : ∀ x, LenPres K (f x)) :
+    LenPres K (xs.flatMap f) := by
+  induction xs with
+  | nil => exact lenPres_nil
+  | cons x xs ih => rw [List.flatMap_cons]; exact lenPres_append (h x) ih
+
+theorem lenPres_pre (cfg : Cfg) (level : ℕ) (s : Shape) (lr : ℕ) : LenPres K (pre cfg level s lr) := by
+  unfold pre; split
+  · exact lenPres_smooth _ _ _ _
+  · exact lenPres_nil
+
+theorem lenPres_post (cfg : Cfg) (level : ℕ) (s : Shape) (lr : ℕ) : LenPres K (post cfg level s lr) := by
+  unfold post; split
+  · exact lenPres_smooth _ _ _ _
+  · exact lenPres_nil
+
+theorem lenPres_passes (cfg : Cfg) (sc lr : ℕ) : ∀ (fuel level nc : ℕ) (s : Shape),
+    LenPres K (passes cfg sc lr fuel level nc s) := by
+  intro fuel
+  induction fuel with
+  | zero =>
+    intro level nc s
+    simp only [passes]
+    exact lenPres_append (a := [Ev.enter level nc s]) (lenPres_enter _ _ _) (lenPres_smooth _ _ _ _)
+  | succ fuel ih =>
+    intro level nc s
+    simp only [passes]
+    refine lenPres_append (a := [Ev.enter level nc s]) (lenPres_enter _ _ _) ?_
+    refine lenPres_flatMap _ _ fun it => ?_
+    have hb := lenPres_bracket (K := K) (ih (level+1) ((if (nc == 0 || !cfg.isF) = true then cfg.cycmax else nc) - it)
+      (coarsen (currentScDir sc s) s)) level s (currentScDir sc s) (coarsen (currentScDir sc s) s)
+      level s (currentScDir sc s)
+    have := lenPres_append (lenPres_append (lenPres_pre (K := K) cfg level s lr) hb)
+      (lenPres_post (K := K) cfg level s lr)
+    simpa only [List.append_assoc] using this
+
+theorem lenPres_fineIter (cfg : Cfg) (D sc lr cm : ℕ) (s : Shape) :
+    LenPres K (fineIter cfg D sc lr cm s) := by
+  cases D with
+  | zero => exact lenPres_smooth _ _ _ _
+  | succ D' =>
+    simp only [fineIter]
+    have hb := lenPres_bracket (K := K) (lenPres_passes cfg sc lr D' 1 cm
+      (coarsen (currentScDir sc s) s)) 0 s (currentScDir sc s) (coarsen (currentScDir sc s) s)
+      0 s (currentScDir sc s)
+    have := lenPres_append (lenPres_append (lenPres_pre (K := K) cfg 0 s lr) hb)
+      (lenPres_post (K := K) cfg 0 s lr)
+    simpa only [List.append_assoc] using this
+
+theorem lenPres_fineLoop (r : Run) : ∀ n k it cm, LenPres K (fineLoop r n k it cm) := by
+  intro n
+  induction n with
+  | zero => intro k it cm; exact lenPres_nil
+  | succ n ih =>
+    intro k it cm
+    simp only [fineLoop]
+    exact lenPres_append (lenPres_append (lenPres_fineIter _ _ _ _ _ _) (lenPres_cycleEnd _ _ _))
+      (ih _ _ _)
+
+theorem lenPres_mgTrace (r : Run) : LenPres K (mgTrace r) := by
+  simp only [mgTrace]
+  refine lenPres_append (lenPres_append (lenPres_enter _ _ _) ?_) (lenPres_fineLoop r _ _ _ _)
+  split
+  · exact lenPres_smooth _ _ _ _
+  · exact lenPres_nil
+
+/-- **One complete `multigrid` call returns exactly the fine level it was given, with the
+field unchanged, if that field solves the system** (the stack is back at depth one). -/
+theorem mgRun_fixed_exact (r : Run) (l0 : Lvl K) (hS : Solved l0)
+    (hInj : ∀ g m, Reach l0.g l0.m g m → AllInj g m) : (mgRun r l0).1 = [l0] := by
+  obtain ⟨zs, h1, _⟩ := mgRun_fixed r l0 hS hInj
+  have hlen := lenPres_mgTrace (K := K) r ([l0], true) (by simp)
+  unfold mgRun at h1 ⊢
+  rw [h1] at hlen
+  simp only [List.length_append, List.length_cons, List.length_nil] at hlen
+  have : zs = [] := List.length_eq_zero_iff.1 (by omega)
+  rw [h1, this, List.nil_append]
+
 end Emg
